@@ -475,6 +475,7 @@ def first_divergence(m, r):
 
 P_WLOG, P_HLOG, P_CLOG, P_SLOG, P_MML, P_TLEN, P_STRAT = 101, 102, 103, 104, 105, 106, 107
 P_LDM, P_LDMHLOG, P_LDMMML, P_CHECKSUM = 160, 161, 162, 201
+P_NBWORKERS, P_JOBSIZE = 400, 401
 P_FORCEWIN, P_ATTACH, P_ROW, P_DETREF, P_MAXBLOCK, P_LEVEL = 1000, 1001, 1011, 1012, 1015, 100
 
 
@@ -757,23 +758,84 @@ def compare_prediction(mout, expect):
     return bad
 
 
+KEY_DICT_DROPPED = "C15-dict-dropped-by-index-correction"
+
+
 def oracle_failures(out_lines, K):
-    """Direct oracles on the real run: every frame round-trips, equals the fresh-context output, index bounded."""
+    """Direct oracles on the real run: every frame round-trips, equals the fresh-context output, index bounded,
+    no table cell above the current index.  Returns (number of frames, [(line number, why, key or None)]).
+
+    key KEY_DICT_DROPPED (finding, see docs/C15.md): ZSTD_overflowCorrectIfNeeded invalidates the dictionary; a frame
+    that (a) uses a dictionary / prefix, (b) did not re-create its index referential at frame start and (c) crossed
+    ZSTD_CURRENT_MAX inside the frame (dictionary load included) round-trips but may differ from the fresh-context
+    output.  Only a reused != fresh difference of exactly such a frame carries the key."""
     fails = []
     nf = 0
-    limit = K["ZSTD_CURRENT_MAX"] + K["ZSTD_CHUNKSIZE_MAX"]
+    CMAX = K["ZSTD_CURRENT_MAX"]
+    limit = CMAX + K["ZSTD_CHUNKSIZE_MAX"]
+    idx_now = 0          # (nextSrc - base) of the reused context after the last line that showed it
+    idx_begin = 0        # the same, before the frame in progress started
+    frame = None         # dict(mode, dsz, forced) of the bufferless frame in progress
     for i, ln in enumerate(out_lines):
         d = parse_ctx_line(ln)
-        if d["_t"] == "E":
-            fails.append((i, "harness/library error: " + ln[:200]))
-        if d["_t"] == "F":
+        t = d["_t"]
+        if t == "E":
+            fails.append((i, "harness/library error: " + ln[:200], None))
+        if t == "N":
+            idx_now = 0
+        if t == "B":
+            idx_begin = idx_now
+            try:
+                dm, _, dsz = ints(d.get("dict", "0,0,0"))
+            except ValueError:
+                dm, dsz = 0, 0
+            frame = dict(mode=dm, dsz=dsz, forced=d.get("forced"))
+        if t == "F":
             nf += 1
+            api = d.get("api")
+            if api in ("oneshot", "stream"):
+                idx_begin = idx_now
+                try:
+                    dm, _, dsz = ints(d.get("dict", "0,0,0"))
+                except ValueError:
+                    dm, dsz = 0, 0
+                frame = dict(mode=dm, dsz=dsz, forced=d.get("forced"))
             if d.get("rt") != "1":
-                fails.append((i, "frame does not round-trip: " + ln[:300]))
+                fails.append((i, "frame does not round-trip: " + ln[:300], None))
             elif d.get("fresh") != "1":
-                fails.append((i, "reused context output differs from fresh context output: " + ln[:300]))
-        if "idx" in d and d["idx"].lstrip("-").isdigit() and not (0 <= int(d["idx"]) <= limit):
-            fails.append((i, "index out of the 32-bit range: " + ln[:300]))
+                key = None
+                try:
+                    size = int(d.get("size", "0"))
+                    if (frame and frame["mode"] != 0 and frame["dsz"] > 0 and frame["forced"] == "0"
+                            and idx_begin <= CMAX - K["ZSTD_INDEXOVERFLOW_MARGIN"]
+                            and idx_begin + frame["dsz"] + size > CMAX):
+                        key = KEY_DICT_DROPPED
+                except ValueError:
+                    pass
+                fails.append((i, "reused context output differs from fresh context output: " + ln[:300], key))
+            frame = None if api != "bufferless" else frame
+        if t == "G":
+            if d.get("rt") != "1":
+                fails.append((i, "long stream does not round-trip: " + ln[:300], None))
+            elif d.get("fresh", "1") != "1":
+                fails.append((i, "reused (multi-threaded) context output differs from fresh context output: " + ln[:300], None))
+            if d.get("wtbad", "0") != "0":
+                fails.append((i, "a worker context's table holds an index above its current index: " + ln[:300], None))
+        if "idx" in d and d["idx"].lstrip("-").isdigit():
+            if not (0 <= int(d["idx"]) <= limit):
+                fails.append((i, "index out of the 32-bit range: " + ln[:300], None))
+            idx_now = int(d["idx"])
+        elif "W" in d:
+            try:
+                w = ints(d["W"])
+                idx_now = w[0] - w[1]
+            except ValueError:
+                pass
+        for fld, what in (("tbad", "a match-state table holds an index above the current index"),
+                          ("ltbad", "the LDM hash table holds an index above the LDM window's current index"),
+                          ("ntubad", "nextToUpdate is above the current index")):
+            if fld in d and d[fld] != "0":
+                fails.append((i, what + ": " + ln[:300], None))
     return nf, fails
 
 
@@ -786,38 +848,41 @@ def run_scenario(exe, arena_mb, cmds, timeout=900):
 # ------------------------------------------------------------------------------------------------
 # the check
 
-def shrink_scenario(exe, arena_mb, cmds, K, budget=25):
+def shrink_scenario(exe, arena_mb, cmds, K, budget=25, key=None, wall=75):
     """Best-effort reduction of a failing real-context scenario: cut after the first failing frame, then drop
-    earlier frame commands one at a time while the failure persists."""
+    earlier frame commands one at a time while a failure of the same class (same finding key) persists.
+    Bounded by [budget] trials and [wall] seconds."""
+    t_end = time.time() + wall
     def failing(c):
         rc, lines, err = run_scenario(exe, arena_mb, c, timeout=600)
         nf, fails = oracle_failures(lines, K)
-        return (rc != 0) or bool(fails), lines, (fails[0][1] if fails else ("rc=%d %s" % (rc, err[-200:])))
-    bad, lines, why = failing(cmds)
+        fails = [f for f in fails if f[2] == key]
+        return (rc != 0) or bool(fails), lines, (fails[0][1] if fails else ("rc=%d %s" % (rc, err[-200:]))), (fails[0][0] if fails else len(lines))
+    bad, lines, why, at = failing(cmds)
     if not bad:
         return cmds, None
-    # cut: find how many frame commands were executed up to the failure
-    frames_seen = sum(1 for l in lines if l.startswith("F ") or l.startswith("G "))
+    # cut: how many frame commands had been executed when the first failure showed
+    frames_seen = sum(1 for l in lines[:at + 1] if l.startswith("F ") or l.startswith("G "))
     cut, k = [], 0
     for c in cmds:
         cut.append(c)
-        if c.split()[0] in ("oneshot", "stream", "bufferless", "bigstream"):
+        if c.split()[0] in ("oneshot", "stream", "bufferless", "bigstream", "mtstream"):
             k += 1
             if k >= max(frames_seen, 1):
                 break
-    if failing(cut)[0]:
+    if len(cut) < len(cmds) and failing(cut)[0]:
         cmds = cut
     n = 0
     i = 0
-    while i < len(cmds) - 1 and n < budget:
-        if cmds[i].split()[0] in ("oneshot", "stream", "bufferless"):
+    while i < len(cmds) - 1 and n < budget and time.time() < t_end:
+        if cmds[i].split()[0] in ("oneshot", "stream", "bufferless", "bigstream", "mtstream"):
             trial = cmds[:i] + cmds[i + 1:]
             n += 1
             if failing(trial)[0]:
                 cmds = trial
                 continue
         i += 1
-    return cmds, failing(cmds)[2]
+    return cmds, why
 
 
 def ctx_job(exe, mexe, freq, K, seed, arena_mb, quick, extra_cmds=None):
@@ -857,6 +922,27 @@ def ctx_job(exe, mexe, freq, K, seed, arena_mb, quick, extra_cmds=None):
     res["predicted"] = len(expect)
     res["sigs"] = [tuple(l[2]) for l in model] + [("ctx", parse_ctx_line(l).get("api"), parse_ctx_line(l).get("ap", "").split(",")[3:6] and tuple(parse_ctx_line(l).get("ap", "0,0,0,0,0,0").split(",")[3:6])) for l in lines if l[:2] in ("F ", "C ")]
     res["sample"] = [l[:260] for l in lines if l.startswith("F ")][:2]
+    return res
+
+
+KEY_LDM_TINY = "C15-ldm-window-not-corrected-on-tiny-blocks"
+
+
+def ldm_probe_job(exe, freq, ncalls, tail, warp_idx, timeout=1500):
+    """Finding probe (docs/C15.md, Findings): LDM on, one frame fed through ZSTD_compressStream2 + ZSTD_e_flush in 6-byte
+    pieces (blocks below 7 bytes never reach ZSTD_ldm_generateSequences, the only place where the LDM window is overflow
+    corrected), then 64 KiB pieces.  warp_idx = 0: pure public API (ncalls must exceed 2^32 / 6); otherwise the LDM window
+    is moved to index warp_idx half way (test device).  Oracle: the LDM index stays an exact U32 and the frame round-trips."""
+    cmds = ["resetparams", "param %d 1" % P_LEVEL, "param %d 17" % P_WLOG, "param %d 1" % P_LDM, "nodict",
+            "ldmtiny %d %d %d" % (ncalls, tail, warp_idx)]
+    t0 = time.time()
+    rc, lines, err = run_scenario(exe, 8, cmds, timeout=timeout)
+    tl = [parse_ctx_line(l) for l in lines if l.startswith("T ")]
+    gl = [parse_ctx_line(l) for l in lines if l.startswith("G ")]
+    res = dict(freq=freq, cmds=cmds, rc=rc, ncalls=ncalls, warp_idx=warp_idx, wall=time.time() - t0,
+               ldmidx=int(tl[0]["ldmidx"]) if tl else None, exact=(tl[0].get("ldmexact") == "1") if tl else None,
+               lnbovf=int(tl[0]["lnbovf"]) if tl else None, rt=(gl[0].get("rt") == "1") if gl else None,
+               errors=[l[:200] for l in lines if l.startswith("E ")])
     return res
 
 
@@ -905,6 +991,19 @@ def run(ctx):
                 # one long stream through the reused context: the frequent-correction build must correct (nbovf > 0)
                 extra = ["resetparams", "param %d 1" % P_LEVEL, "param %d %d" % (P_WLOG, rng.choice([17, 18, 19, 20])), "nodict",
                          "bigstream %d %d" % ((96 << 20) if ctx.quick else (1 << 30), rng.randint(1, 1 << 30)), "oneshot 7 5000"]
+                # multi-threaded: worker contexts are reused from job to job (continue mode, prefix = overlap), the serial
+                # LDM state has its own window; second stream: workers moved just below the reset threshold, so that the
+                # jobs cross ZSTD_CURRENT_MAX in the default build
+                edge = K["ZSTD_CURRENT_MAX"] - K["ZSTD_INDEXOVERFLOW_MARGIN"]
+                extra += ["resetparams", "param %d %d" % (P_LEVEL, rng.choice([1, 1, 3, 5])), "param %d %d" % (P_WLOG, rng.choice([17, 18, 20])),
+                          "param %d %d" % (P_NBWORKERS, rng.choice([1, 2, 3])), "param %d %d" % (P_JOBSIZE, rng.choice([1 << 19, 1 << 20])),
+                          "param %d %d" % (P_LDM, rng.randint(0, 1)), "nodict",
+                          "mtstream %d %d 0" % ((24 << 20) if ctx.quick else (256 << 20), rng.randint(1, 1 << 30)),
+                          # a worker re-creates its index at every job start once it is within the margin, so only a job longer
+                          # than ZSTD_INDEXOVERFLOW_MARGIN can cross ZSTD_CURRENT_MAX: 20 MiB jobs
+                          "param %d %d" % (P_JOBSIZE, 20 << 20),
+                          "mtstream %d %d %d" % ((72 << 20) if ctx.quick else (512 << 20), rng.randint(1, 1 << 30), edge - rng.randint(0, 1 << 16)),
+                          "resetparams", "nodict", "oneshot 9 7000"]
             futs.append(("ctx", pool.submit(ctx_job, xexe[freq], mexe, freq, K, rng.randint(1, 1 << 30), arena_mb, ctx.quick, extra)))
     if not ctx.quick:
         # the real thing: > 4 GiB through ONE context of the DEFAULT build, generated and decoded on the fly;
@@ -914,13 +1013,33 @@ def run(ctx):
                      "bigstream %d %d" % (4608 << 20, rng.randint(1, 1 << 30)), "oneshot 7 5000", "oneshot 100 100000"]
             futs.append(("ctx", pool.submit(ctx_job, xexe[0], mexe, 0, K, rng.randint(1, 1 << 30), arena_mb, True, extra)))
 
+    # ---- finding probe: the LDM window on blocks below 7 bytes (quick: with the warp device; thorough: also pure API)
+    futs.append(("ldmprobe", pool.submit(ldm_probe_job, xexe[0], 0, 2000, 8, U32 - 3000)))
+    futs.append(("ldmprobe", pool.submit(ldm_probe_job, xexe[1], 1, 2000, 8, U32 - 3000)))
+    if not ctx.quick:
+        futs.append(("ldmprobe", pool.submit(ldm_probe_job, xexe[0], 0, U32 // 6 + 5000000, 64, 0)))
+
     # the proofs are checked while the ties run
     ctx.prove()
 
     problems = []     # (kind, freq, detail, concrete_replay or None)
+    ldm_findings = []
     hist_bytes = {}
     for kind, f in futs:
         r = f.result()
+        if kind == "ldmprobe":
+            ctx.count(("ldmprobe", r["freq"], r["warp_idx"] != 0, r["exact"], r["rt"], r["rc"] != 0))
+            ctx.notes.setdefault("ldm_tiny_block_probe", []).append({k: r[k] for k in ("freq", "ncalls", "warp_idx", "ldmidx", "exact", "lnbovf", "rt", "rc", "errors", "wall")})
+            if r["exact"] is False:
+                what = ("LDM window index wrapped: %d six-byte flushes%s took (nextSrc - base) of ldmState.window to %s without any overflow "
+                        "correction (nbOverflowCorrections=%s); then 64 KiB inputs: %s" %
+                        (r["ncalls"], "" if not r["warp_idx"] else " (window moved to index %d half way: test device)" % r["warp_idx"], r["ldmidx"], r["lnbovf"],
+                         "harness died rc=%s" % r["rc"] if r["rc"] != 0 else ("round trip %s %s" % (r["rt"], r["errors"][:1]))))
+                ldm_findings.append((dict(kind="ldm tiny-block probe", frequently=r["freq"], detail=dict(arena_mb=8, cmds=r["cmds"], why=what, key=KEY_LDM_TINY)), what))
+            elif r["exact"] is None or r["rc"] != 0 or r["rt"] is not True:
+                problems.append(("ldm tiny-block probe", r["freq"], dict(arena_mb=8, cmds=r["cmds"], why="probe failed: rc=%s rt=%s %s" % (r["rc"], r["rt"], r["errors"][:2])),
+                                 "LDM tiny-block probe: rc=%s round trip=%s %s" % (r["rc"], r["rt"], r["errors"][:1])))
+            continue
         if kind == "tie":
             lines = r["lines"]
             for opc, a, sig in lines:
@@ -947,21 +1066,28 @@ def run(ctx):
                 ctx.count(("ctx", r["freq"]) + tuple(str(x) for x in sg))
             ctx.notes.setdefault("real_context_runs", []).append(dict(frequently=r["freq"], frames=r["frames"], predicted_transitions=r["predicted"],
                                                                       max_nbOverflowCorrections=r["max_nbovf"], max_index=r["max_idx"], wall_s=round(r["wall"], 1),
-                                                                      bigstream=[dict(size=int(g["size"]), csize=int(g["csize"]), rt=int(g["rt"]), nbovf=int(g["nbovf"]), maxidx=int(g["maxidx"])) for g in r["big"]]))
+                                                                      bigstream=[dict(api=g.get("api"), size=int(g["size"]), csize=int(g["csize"]), rt=int(g["rt"]), nbovf=int(g["nbovf"]), maxidx=int(g["maxidx"]),
+                                                                                      workers=int(g.get("workers", "0")), serial_ldm_nbovf=int(g.get("serialnbovf", "0"))) for g in r["big"]]))
             for s_ in r["sample"][:1]:
                 ctx.sample(dict(real_context_frame=s_))
             if r["rc"] != 0:
                 problems.append(("real-context run crashed", r["freq"], dict(rc=r["rc"], err=r["err"], cmds=r["cmds"][-60:]),
                                  "the harness driving the real context died (rc=%d)" % r["rc"]))
-            for i, why in r["fails"][:2]:
-                problems.append(("real-context oracle", r["freq"], dict(arena_mb=arena_mb, cmds=r["cmds"], failing_line=i, why=why), why))
+            seen_keys = set()
+            for i, why, key in r["fails"]:
+                if key in seen_keys or len(seen_keys) >= 3:
+                    continue
+                seen_keys.add(key)
+                problems.append(("real-context oracle", r["freq"], dict(arena_mb=arena_mb, cmds=r["cmds"], failing_line=i, why=why, key=key), why))
             for b in r["pred_bad"][:2]:
                 problems.append(("real-context window prediction", r["freq"], dict(arena_mb=arena_mb, cmds=r["cmds"], mismatch=[str(x) for x in b]), None))
             for g in r["big"]:
                 if r["freq"] == 1 and int(g["nbovf"]) == 0:
                     problems.append(("frequent-correction build never corrected", 1, dict(line=g), None))
-                if r["freq"] == 0 and int(g["size"]) > K["ZSTD_CURRENT_MAX"] + (1 << 27) and int(g["nbovf"]) == 0:
+                if r["freq"] == 0 and g.get("api") == "bigstream" and int(g["size"]) > K["ZSTD_CURRENT_MAX"] + (1 << 27) and int(g["nbovf"]) == 0:
                     problems.append(("default build never corrected on a > 3.5 GiB stream", 0, dict(line=g), None))
+                if r["freq"] == 0 and g.get("api") == "mtstream" and int(g.get("warped", "0")) > 0 and int(g["nbovf"]) == 0:
+                    problems.append(("default build: no worker context crossed ZSTD_CURRENT_MAX although moved next to it", 0, dict(line=g), None))
     pool.shutdown()
     ctx.notes["history_bytes_simulated"] = hist_bytes
     for opc, a, sig in cases[:2] + [c for c in cases if c[0] == 12][:2] + [c for c in cases if c[0] == 15][:1] + [c for c in cases if c[0] == 17][:1]:
@@ -980,15 +1106,31 @@ def run(ctx):
         found = []
         for freq in (0, 1):
             r = ctx_job(xexe[freq], mexe, freq, K, rng.randint(1, 1 << 30), arena_mb, True)
-            for i, why in r["fails"][:1]:
+            for i, why, key in [f for f in r["fails"] if f[2] is None][:1]:
                 cmds, why2 = shrink_scenario(xexe[freq], arena_mb, r["cmds"], K)
                 found.append((dict(kind="real-context oracle", frequently=freq, arena_mb=arena_mb, cmds=cmds, why=why2 or why), why2 or why))
         return found
 
     ctx.proof_verdict(search)
+    known_keys = set(k.get("key") for k in core.known_findings().get("known", []) if k.get("property") == "C15")
+    keyed = [p_ for p_ in problems if p_[0] == "real-context oracle" and p_[2].get("key")]
+    problems = [p_ for p_ in problems if not (p_[0] == "real-context oracle" and p_[2].get("key"))]
+    done_keys = set()
+    for kind, freq, det, concrete in keyed:
+        key = det["key"]
+        if (key, freq) in done_keys:
+            continue
+        done_keys.add((key, freq))
+        if key not in known_keys:      # not (yet) accepted as a known finding: give a reduced replay
+            cmds, why2 = shrink_scenario(xexe[freq], det["arena_mb"], det["cmds"], K, key=key)
+            det = dict(det, cmds=cmds, why=why2 or det["why"])
+        ctx.notes.setdefault("known_finding_hits", []).append(dict(key=key, frequently=freq, why=det["why"][:200]))
+        ctx.violation(dict(kind=kind, frequently=freq, detail=det), what="%s (build knob frequently=%d): %s" % (kind, freq, concrete), key=key)
+    for rp, what in ldm_findings[:1]:
+        ctx.violation(rp, what=what, key=KEY_LDM_TINY)
     concrete_seen = False
     for kind, freq, det, concrete in problems[:8]:
-        if concrete and kind == "real-context oracle":
+        if concrete and kind == "real-context oracle" and not concrete_seen:
             cmds, why2 = shrink_scenario(xexe[freq], det["arena_mb"], det["cmds"], K)
             det = dict(det, cmds=cmds, why=why2 or det["why"])
         if concrete:
@@ -1021,7 +1163,7 @@ def replay(ctx, K):
         ctx.count(("replay", "ctx"), n=max(nf, 1))
         ctx.sample(dict(replayed_scenario_lines=len(lines), failures=[f[1][:200] for f in fails[:3]]))
         if rc != 0 or fails:
-            ctx.violation(rp, what="replay: " + (fails[0][1] if fails else "harness rc=%d" % rc))
+            ctx.violation(rp, what="replay: " + (fails[0][1] if fails else "harness rc=%d" % rc), key=(fails[0][2] if fails else det.get("key")))
         return
     lines = None
     if "history_prefix" in det:
